@@ -256,8 +256,10 @@ func realIns(p *prover.InsertionParameters) (res string) {
 			res = "panic"
 		}
 	}()
+	// the struct keeps whatever InputHash it held before (zero, small, or a full-width value left by
+	// an earlier computation): the helper must overwrite it
 	q := *p
-	q.InputHash = *big.NewInt(0)
+	q.InputHash = *new(big.Int).Set(&p.InputHash)
 	if err := q.ComputeInputHashInsertion(); err != nil {
 		return "err"
 	}
@@ -271,7 +273,7 @@ func realDel(p *prover.DeletionParameters) (res string) {
 		}
 	}()
 	q := *p
-	q.InputHash = *big.NewInt(0)
+	q.InputHash = *new(big.Int).Set(&p.InputHash)
 	if err := q.ComputeInputHashDeletion(); err != nil {
 		return "err"
 	}
@@ -280,6 +282,25 @@ func realDel(p *prover.DeletionParameters) (res string) {
 
 var disagreements = 0
 
+// staleHash: the value the struct's InputHash holds before the helper runs
+func staleHash(g *gen.G) *big.Int {
+	switch g.Intn(3) {
+	case 0:
+		stat["stale.zero"]++
+		return big.NewInt(0)
+	case 1:
+		stat["stale.small"]++
+		return big.NewInt(int64(1 + g.Intn(2)))
+	}
+	stat["stale.fullwidth"]++
+	b := make([]byte, 32)
+	for i := range b {
+		b[i] = byte(g.Intn(256))
+	}
+	b[0] &= 0x2f
+	return new(big.Int).SetBytes(b)
+}
+
 func caseIns(g *gen.G) {
 	b := g.Intn(17)
 	p := &prover.InsertionParameters{StartIndex: genIndex(g)}
@@ -287,7 +308,7 @@ func caseIns(g *gen.G) {
 	pre, c1 := genValue(g, allowOut)
 	post, c2 := genValue(g, allowOut)
 	p.PreRoot, p.PostRoot = *pre, *post
-	p.InputHash = *big.NewInt(int64(g.Intn(3)))
+	p.InputHash = *staleHash(g)
 	stat["ins.root."+c1]++
 	stat["ins.root."+c2]++
 	all := []*big.Int{pre, post}
@@ -341,7 +362,7 @@ func caseDel(g *gen.G) {
 	pre, c1 := genValue(g, allowOut)
 	post, c2 := genValue(g, allowOut)
 	p.PreRoot, p.PostRoot = *pre, *post
-	p.InputHash = *big.NewInt(int64(g.Intn(3)))
+	p.InputHash = *staleHash(g)
 	stat["del.root."+c1]++
 	stat["del.root."+c2]++
 	p.DeletionIndices = make([]uint32, b)
